@@ -124,9 +124,7 @@ theorem leaf_congr (p : P) (hl : isLeaf p = true) (args : List Bytes) (e e' : En
       simp only [runP, h.getInt ns]
       split
       · simp [StepEq]
-      · split
-        · simp [StepEq]
-        · exact stepEq_ret (h.setSlot _ _)
+      · exact stepEq_ret (h.setSlot _ _)
   | anyMap s =>
     simp only [runP]
     split
